@@ -12,7 +12,7 @@ for ID in "$@"; do
   cp -r "$ROOT/seeded/$ID" /tmp/vsrc_$ID/$ID/$K
   [ -f /tmp/vsrc_$ID/$ID/$K/AGENT_README.md ] && cp /tmp/vsrc_$ID/$ID/$K/AGENT_README.md /tmp/vsrc_$ID/$ID/$K/README.md
   rm -f /tmp/vsrc_$ID/$ID/$K/meta.json.keep; [ -f "$ROOT/seeded/$ID/meta.json" ] && cp "$ROOT/seeded/$ID/meta.json" /tmp/vsrc_$ID/meta.keep
-  "$ROOT/tools/validate_seed.sh" /tmp/vsrc_$ID/$ID/$K $ID 2>&1 | tail -3
+  "$ROOT/tools/validate_seed.sh" /tmp/vsrc_$ID/$ID/$K $ID 2>&1 | grep -A4 RESULT
   [ -f /tmp/vsrc_$ID/meta.keep ] && cp /tmp/vsrc_$ID/meta.keep "$ROOT/seeded/$ID/meta.json"
   rm -rf /tmp/vsrc_$ID
 done
